@@ -1,13 +1,73 @@
 """C02 - panic iff the source semantics fail; first failure wins; untaken code is silent."""
 from evalcheck import *
 
-RULE = ("impl->spec: failing-site-dense random programs (arithmetic on full-range 8/16-bit inputs, divisions, shifts by input amounts, input-dependent indices, "
+RULE = ("design: PanicRecord.tla (running panic record with its condition cache, driven as compile.rs does for sequences, if/else, && and ||) checked by TLC: FirstFailureWins and PanicMonotone hold for every well-bracketed panic skeleton of the bound, the superseded cache schemes are refuted negative controls; spec->impl: every skeleton is rendered to a program (conditions = Boolean parameters, repeated conditions = repeated wires) and evaluated in every world; impl->spec: failing-site-dense random programs (arithmetic on full-range 8/16-bit inputs, divisions, shifts by input amounts, input-dependent indices, "
         "failing operations inside branches, arms, short-circuited operands, loops and callees) plus regression witnesses; every run judged by Trace_Eval.tla: "
         "panic flag iff GarbleSem.Run fails, reason equal, reported span = span of an admissible first failing operation, no panic otherwise. "
         "Non-trivial = programs whose observed outputs differ between two runs.")
 
 
+def render_skeleton(prog, nconds):
+    """a panic skeleton of PanicRecord.tla as a Garble program: conditions are Boolean parameters, a site is an
+    operation that fails iff its condition is true (index 1 of a one-element array / division by zero)"""
+    # closing tokens need the kind of the construct they close
+    text, stack, n = [], [], 0
+    for x in prog:
+        op, c = x["op"], x["c"]
+        n += 1
+        if op == "site":
+            text.append("let s%d = arr[(c%d as usize)];" % (n, c) if x["k"] == "oob" else "let s%d = v / ((!c%d) as u8);" % (n, c))
+        elif op == "if":
+            text.append("if c%d {" % c)
+            stack.append("if")
+        elif op == "else":
+            text.append("} else {")
+        elif op in ("and", "or"):
+            text.append("let b%d = c%d %s ({" % (n, c, "&&" if op == "and" else "||"))
+            stack.append(op)
+        else:
+            k = stack.pop()
+            text.append("}" if k == "if" else ("true });" if k == "and" else "false });"))
+    params = ", ".join("c%d: bool" % i for i in range(1, nconds + 1))
+    return "pub fn main(%s, arr: [u8; 1], v: u8) -> u8 { %s v }" % (params, " ".join(text))
+
+
+def skeletons(run, harness):
+    """design check of the panic record (fixed scheme holds, superseded schemes refuted) and replay of every skeleton"""
+    tier = run.tier
+    r = tlc("PanicRecord", "PanicRecord_fixed.cfg" if tier == "quick" else "PanicRecord_fixed_thorough.cfg", workers=6, timeout=3000, xmx="16g")
+    run.add_tlc("PanicRecord/fixed", r)
+    for sc in ("restore", "union"):
+        r2 = tlc("PanicRecord", "PanicRecord_%s.cfg" % sc, workers=2, timeout=600, must_succeed=False)
+        run.add_tlc("PanicRecord/negative-control-" + sc, r2)
+        if r2.ok:
+            raise ToolError("negative control %s of PanicRecord.tla unexpectedly passes (vacuity)" % sc)
+    spath = os.path.join(run.work, "skeletons.ndjson")
+    r, cnt = tlc_cases("PanicRecord", "PanicRecord_gen_%s.cfg" % tier, spath, workers=4, timeout=3000, max_cases=40000)
+    run.add_tlc("PanicRecord/emit", r)
+    # longer skeletons: random walks through the same machine (the invariant is checked on every walk as well)
+    spath2 = os.path.join(run.work, "skeletons_sim.ndjson")
+    r, cnt2 = tlc_cases("PanicRecord", "PanicRecord_sim.cfg", spath2, workers=4, timeout=3000, simulate="num=%d" % (2500 if tier == "quick" else 40000), depth=60, seed=int(run.seed) + 1,
+                        max_cases=3000 if tier == "quick" else 40000)
+    run.add_tlc("PanicRecord/simulate", r)
+    cases = []
+    for i, c in enumerate(read_ndjson(spath) + read_ndjson(spath2)):
+        n = c["nconds"]
+        worlds = [[(w >> j) & 1 for j in range(n)] + [[7], 9] for w in range(2 ** n)]
+        cases.append({"id": "skeleton-%d" % i, "src": render_skeleton(c["prog"], n), "inputs": worlds})
+    run.cov["panic_skeletons"] = len(cases)
+    cpath = os.path.join(run.work, "skeleton_cases.ndjson")
+    write_ndjson(cpath, cases)
+    events = record(run, harness, [["eval-file", cpath, "@OUT"]])
+    for e in events:
+        if e["ev"] != "Eval":
+            raise ToolError("panic skeleton does not compile: %s" % json.dumps(e)[:500])
+    judge(run, events)
+
+
 def run(run, harness, replay=None):
+    if not replay:
+        skeletons(run, harness)
     quick = [["eval-gen", "@OUT", "1200", "8", "panic"], ["eval-gen", "@OUT", "300", "8", "panic", "effects"]]
     thorough = [["eval-gen", "@OUT", "15000", "12", "panic"], ["eval-gen", "@OUT", "4000", "12", "panic", "effects"], ["eval-corpus", os.path.join(VERIF, "corpus"), "@OUT", "400", "12"]]
     run_eval_check(run, harness, replay, quick, thorough, RULE)
